@@ -254,7 +254,7 @@ func genC06(g GenCtx) interface{} {
 		case r < 8 && len(b.filtered) > 0:
 			sc.Acts = append(sc.Acts, TAct{Op: "refilter", Node: b.filtered[rng.Intn(len(b.filtered))], Filter: randFilter(rng), Async: rng.Intn(3) == 0})
 		case r < 9:
-			sc.Acts = append(sc.Acts, TAct{Op: "sleep", Ms: pickInt(rng, 0, 1, 20, 300)})
+			sc.Acts = append(sc.Acts, TAct{Op: "sleep", Ms: pickInt(rng, 0, 1, 20, 300, 300, quietMs(rng, sc.PeriodMs))})
 		default:
 			if len(b.kinds) < 10 {
 				mk()
@@ -446,7 +446,7 @@ func genC11(g GenCtx) interface{} {
 		case r < 7 && len(b.filtered) > 0:
 			sc.Acts = append(sc.Acts, TAct{Op: "refilter", Node: b.filtered[rng.Intn(len(b.filtered))], Filter: randFilter(rng), Async: rng.Intn(2) == 0})
 		case r < 8:
-			sc.Acts = append(sc.Acts, TAct{Op: "sleep", Ms: pickInt(rng, 0, 1, 50, 1200)})
+			sc.Acts = append(sc.Acts, TAct{Op: "sleep", Ms: pickInt(rng, 0, 1, 50, 1200, 1200, quietMs(rng, sc.PeriodMs))})
 		case r < 9:
 			sc.Acts = append(sc.Acts, TAct{Op: "settle"})
 		default:
@@ -632,7 +632,7 @@ func genC16(g GenCtx) interface{} {
 			sc.Acts = append(sc.Acts, writeAct(rng, nkeys))
 			inflight++
 		case r < 10:
-			sc.Acts = append(sc.Acts, TAct{Op: "sleep", Ms: pickInt(rng, 0, 1, 40)})
+			sc.Acts = append(sc.Acts, TAct{Op: "sleep", Ms: pickInt(rng, 0, 1, 40, 40, 40, quietMs(rng, sc.PeriodMs))})
 		case r < 11 && !closed:
 			// close a monitor, its publisher, or the root - possibly before readiness
 			closed = true
